@@ -129,7 +129,13 @@ func (s *Stream) createSource() (bstream.Source, error) {
 	}
 
 	if s.finalBlocksOnly {
-		h = finalBlocksFilterHandler(h)
+		// a consumer that resumes from a cursor holds every final block up to the cursor block
+		var heldUpTo *uint64
+		if hasCursor && !s.cursorIsTarget {
+			n := s.cursor.Block.Num()
+			heldUpTo = &n
+		}
+		h = finalBlocksFilterHandler(h, heldUpTo)
 	} else if s.customStepTypeFilter != nil {
 		h = customStepFilterHandler(*s.customStepTypeFilter, h)
 	} else {
@@ -181,12 +187,15 @@ func newOrUndoFilterHandler(h bstream.Handler) bstream.Handler {
 	})
 }
 
-// StepIrreversible and StepNewIrreversible will go through, each final block once: after the switch from
+// StepIrreversible and StepNewIrreversible will go through, each final block once (none at or below heldUpTo): after the switch from
 // merged files to a live source whose last irreversible block is behind the files, the live source
 // announces again, as irreversible, blocks that the files already delivered
-func finalBlocksFilterHandler(h bstream.Handler) bstream.Handler {
+func finalBlocksFilterHandler(h bstream.Handler, heldUpTo *uint64) bstream.Handler {
 	var delivered bool
 	var lastNum uint64
+	if heldUpTo != nil {
+		delivered, lastNum = true, *heldUpTo
+	}
 	return bstream.HandlerFunc(func(block *pbbstream.Block, obj interface{}) error {
 		if !obj.(bstream.Stepable).Step().Matches(bstream.StepIrreversible) {
 			return nil
